@@ -5,6 +5,7 @@ use crate::Env;
 
 pub mod c01;
 pub mod c02;
+pub mod c03;
 pub mod c04;
 pub mod c05;
 pub mod c06;
@@ -28,6 +29,7 @@ pub fn cases(prop: &str, tier: Tier) -> u64 {
     match prop {
         "C01" => c01::cases(tier),
         "C02" => c02::cases(tier),
+        "C03" => c03::cases(tier),
         "C04" => c04::cases(tier),
         "C05" => c05::cases(tier),
         "C06" => c06::cases(tier),
@@ -53,6 +55,7 @@ pub fn run_case(prop: &str, env: &Env, ctx: &mut Ctx, idx: u64) {
     match prop {
         "C01" => c01::run_case(env, ctx, idx),
         "C02" => c02::run_case(env, ctx, idx),
+        "C03" => c03::run_case(env, ctx, idx),
         "C04" => c04::run_case(env, ctx, idx),
         "C05" => c05::run_case(env, ctx, idx),
         "C06" => c06::run_case(env, ctx, idx),
